@@ -11,7 +11,8 @@ def exT : TFields := .cons [0x41] 1 false (.prim .int64) (.cons [0x42] 2 false (
 theorem exFlat : flat exFs = true := by decide
 theorem exName : lookupFieldByName exT [0x41] = some (1, false, .prim .int64) := by simp [exT, lookupFieldByName]
 /-- the JSON member `5` denotes 5 -/
-theorem exLeaf : leafVal .int64 (.num [0x35] .f64) = some (.int 5) := by
+theorem exPF : PFok (fun _ _ => none) := by intro lit b; simp
+theorem exLeaf : leafVal (fun _ _ => none) .int64 (.num [0x35] .f64) = some (.int 5) := by
   have : unmarshalInt .i64 [0x35] = some 5 := by decide +kernel
   simp [leafVal, gvInt, this]
 theorem exFind : findField exFs 1 = some (0, { number := 1 }, .int .i64) := by
@@ -24,10 +25,20 @@ theorem exDec : Spec.Protobuf.decode (.struct exFs) [] = some (.struct (Spec.Pro
 example : ∃ tree out, parseTemplate (fun _ _ => none) 4 (.msg exT) (.obj (.cons [0x41] (.num [0x35] .f64) .nil)) [] = .ok tree ∧
     (∀ F, 8 ≤ F → rewriteT F tree [] = .ok out) ∧
     Spec.Protobuf.decode (.struct exFs) out = some (.struct (.cons (.int 5) (.cons (.str []) .nil))) := by
-  obtain ⟨tree, out, h1, h2, h3⟩ := template_rewrite_value_single (fun _ _ => none) exFs exFlat exT [0x41] (.num [0x35] .f64)
+  obtain ⟨tree, out, h1, h2, h3⟩ := template_rewrite_value_single (fun _ _ => none) exPF exFs exFlat exT [0x41] (.num [0x35] .f64)
     1 0 { number := 1 } (.int .i64) .int64 exName exFind exKind (by decide) (by decide) (by simp [gvString])
     (.int 5) exLeaf [] (Spec.Protobuf.zeroFields exFs) (by decide) exDec 0
   exact ⟨tree, out, h1, fun F hF => h2 F (by simpa using hF), by simpa [exFs, Spec.Protobuf.zeroFields, Spec.Protobuf.zeroOf, valsSet] using h3⟩
+
+/-- the new leaf kinds are in the universe: a zig-zag int32 field, a fixed32 field, a float field (protoc tags them fixed32) -/
+example : kindOf (.int .i32) { number := 1, zigzag := true } = some .sint32 := by simp [kindOf]
+example : kindOf (.int .u32) { number := 1, fixed := true } = some .fix32 := by simp [kindOf]
+example : kindOf (.int .i64) { number := 1, fixed := true } = some .sfix64 := by simp [kindOf]
+example : kindOf .f32 { number := 1, fixed := true } = some .float := by simp [kindOf]
+/-- a float member relative to a `pf` that knows the literal `1.5` -/
+example : leafVal (fun lit bits => if lit = [0x31, 0x2e, 0x35] ∧ bits = 32 then some 0x3fc00000 else none) .float
+    (.num [0x31, 0x2e, 0x35] .f64) = some (.float 0x3fc00000) := by
+  simp [leafVal, gvFloat, floatRead, floatIsZero]
 
 /-- `leaf_sem` on a member of the wrong JSON kind: a string for an int64 field is the json error -/
 example : parseLeaf (fun _ _ => none) .int64 1 (.str [0x61]) = .err "json" := by simp [parseLeaf, gvInt]
